@@ -6,7 +6,8 @@
    emits every walk of length Depth as a GEN line; the replayer drives the real constructors
    along each walk and TraceWalks.tla judges the recorded observations (relation only).      *)
 EXTENDS Vector, Json, IOUtils, FiniteSets
-CONSTANTS Depth, Family            \* Family \in {"C05","C06"}
+CONSTANTS Depth, Family,           \* Family \in {"C05","C06"}
+          Dense                    \* TRUE: every swap and every insert position; FALSE: adjacent swaps and first/middle/last position
 Starts == JsonDeserialize(IOEnv.STARTS_FILE)
 VARIABLES ver, minor, fields, hist
 vars == <<ver, minor, fields, hist>>
@@ -26,8 +27,9 @@ Step(name, nf) == fields' = nf /\ hist' = Append(hist, [op |-> name, fields |-> 
 Init == \E k \in 1..Len(Starts) : /\ ver = Starts[k].ver /\ minor = Starts[k].minor /\ fields = Starts[k].fields
                                   /\ hist = <<[op |-> "init", fields |-> Starts[k].fields]>>
 \* ---- C05 ---------------------------------------------------------------------------------
-Swap == \E a, b \in 1..Len(fields) : a < b /\ Step("swap", SwapF(fields,a,b))
-AddND == \E m \in Optional(ver) \ Present(fields), pos \in 1..(Len(fields)+1) : Step("addND", Ins(fields,pos,<<m,NDOf(ver)>>))
+Swap == \E a, b \in 1..Len(fields) : a < b /\ (Dense \/ b = a + 1 \/ (a = 1 /\ b = Len(fields))) /\ Step("swap", SwapF(fields,a,b))
+AddND == \E m \in Optional(ver) \ Present(fields), pos \in 1..(Len(fields)+1) :
+            (Dense \/ pos \in {1, (Len(fields)+2) \div 2, Len(fields)+1}) /\ Step("addND", Ins(fields,pos,<<m,NDOf(ver)>>))
 DropND == \E k \in 1..Len(fields) : fields[k][2] = NDOf(ver) /\ fields[k][1] \in Optional(ver) /\ Step("dropND", Del(fields,k))
 \* ---- C06 ---------------------------------------------------------------------------------
 ModBaseOf(v) == IF v = "3" THEN BaseOf3 ELSE IF v = "4" THEN BaseOf4 ELSE [x \in {} |-> ""]
